@@ -1,4 +1,5 @@
 import ScrapliProps.C07Lemmas
+import ScrapliModel.TimeoutModifier
 /-
   C07 — operations that cannot complete time out, and time out cleanly.
   Property theorems only (helper lemmas: C07Lemmas.lean).  PARTIAL: what is proved here is the
@@ -613,5 +614,97 @@ theorem asyncio_spawn_orphans :
 /-- the tree contains no such site: every awaitable started inside the async channel and the async
     transports is awaited directly or through `wait_for` (generated from the AST of the live source) -/
 theorem async_spawn_sites_empty : asyncSpawnSites = [] := by decide
+
+/-! ## the per-call `timeout_ops=` keyword: `timeout_modifier` (ScrapliModel/TimeoutModifier.lean)
+
+Which limit a driver operation runs under, as a function of the driver-level `timeout_ops` and the keyword, for BOTH
+`decorate` variants as they are in the tree (`modSync` / `modAsync` are built from the generated AST shapes: a change
+of either keep test, of the assignment or of the `finally` re-checks — and breaks — these proofs). -/
+
+/-- **modifier_limit_in_force**: whatever the wrapped operation is, it runs under exactly `limitInForce drv kw` —
+    None keeps the driver-level value, any other value (0 = "no limit" included) IS the limit — and its result is
+    handed on unchanged.  Sync and asyncio variants. -/
+theorem modifier_limit_in_force {α : Type} (ok : α → Bool) (sh : ModShape) (hsh : sh = modSync ∨ sh = modAsync)
+    (drv : Nat) (kw : Option Nat) (f : Nat → Nat × α) (err : α) :
+    (modifier ok sh kw f err drv).2 = (f (limitInForce drv kw)).2 := by
+  rcases hsh with rfl | rfl <;> cases kw with
+  | none => simp [modifier, modSync, modAsync, modKeepSync, modKeepAsync, keepHolds, limitInForce]
+  | some k =>
+    by_cases h : k = drv
+    · subst h; simp [modifier, modSync, modAsync, modKeepSync, modKeepAsync, keepHolds, limitInForce]
+    · simp [modifier, modSync, modAsync, modKeepSync, modKeepAsync, modSetsSync, modSetsAsync, keepHolds, limitInForce, h]
+
+example : (modifier (fun (_ : Nat) => true) modAsync (some 0) (fun t => (t, t)) 99 30).2 = 0 ∧
+    (modifier (fun (_ : Nat) => true) modSync none (fun t => (t, t)) 99 30).2 = 30 ∧
+    (modifier (fun (_ : Nat) => true) modSync (some 5) (fun t => (t, t)) 99 30).2 = 5 := by decide
+
+/-- **modifier_restores**: on EVERY exit of the wrapped operation (normal return or any exception: `ok` is arbitrary)
+    the driver-level value is back — for an operation that does not itself change it, under every keyword; for an
+    operation that may leave anything behind, whenever the keyword actually modified the value. -/
+theorem modifier_restores {α : Type} (ok : α → Bool) (sh : ModShape) (hsh : sh = modSync ∨ sh = modAsync)
+    (drv : Nat) (kw : Option Nat) (f : Nat → Nat × α) (err : α) :
+    ((∀ d, (f d).1 = d) → (modifier ok sh kw f err drv).1 = drv) ∧
+    (∀ k, kw = some k → k ≠ drv → (modifier ok sh kw f err drv).1 = drv) := by
+  rcases hsh with rfl | rfl <;> cases kw with
+  | none => simp [modifier, modSync, modAsync, modKeepSync, modKeepAsync, keepHolds]; intro h; exact h drv
+  | some k =>
+    by_cases h : k = drv
+    · subst h; simp [modifier, modSync, modAsync, modKeepSync, modKeepAsync, keepHolds]; intro h; exact h k
+    · simp [modifier, modSync, modAsync, modKeepSync, modKeepAsync, modRestoresSync, modRestoresAsync,
+        modRestoreInFinallySync, modRestoreInFinallyAsync, keepHolds, h]
+
+example : (modifier (fun (o : Out) => o == .ret) modAsync (some 0) (fun _ => (7, .error)) .error 30).1 = 30 := by decide
+
+/-- **modified_op_limit**: a driver operation (modifier over a decorated channel operation over any body, any
+    mechanism, any process state) IS the channel operation run with timeout `limitInForce drv kw`, and the
+    driver-level value afterwards is `drv`. -/
+theorem modified_op_limit (sh : ModShape) (hsh : sh = modSync ∨ sh = modAsync) (cfg : Cfg) (m : Mech) (name : String)
+    (body : Prog) (p : Proc) (drv : Nat) (kw : Option Nat) :
+    modifiedOp sh cfg m name body p drv kw = (drv, run cfg m (.call (limitInForce drv kw) name body .ret) p) := by
+  have h1 := modifier_limit_in_force (fun r : Res => r.out == .ret) sh hsh drv kw
+    (fun t => (t, run cfg m (.call t name body .ret) p))
+    { fin := some p.now, out := .error, closed := p.closed, handler := p.handler, timer := p.timer }
+  have h2 := (modifier_restores (fun r : Res => r.out == .ret) sh hsh drv kw
+    (fun t => (t, run cfg m (.call t name body .ret) p))
+    { fin := some p.now, out := .error, closed := p.closed, handler := p.handler, timer := p.timer }).1 (fun _ => rfl)
+  exact Prod.ext h2 h1
+
+/-- **modified_op_zero_disables**: `timeout_ops=0` on the call disables the limit for that call whatever the
+    driver-level value: the operation IS its body (same result, same time, same process state), every mechanism. -/
+theorem modified_op_zero_disables (sh : ModShape) (hsh : sh = modSync ∨ sh = modAsync) (cfg : Cfg) (m : Mech)
+    (name : String) (body : Prog) (p : Proc) (drv : Nat) :
+    modifiedOp sh cfg m name body p drv (some 0) = (drv, run cfg m body p) := by
+  rw [modified_op_limit sh hsh]
+  simp only [limitInForce, (zero_disables cfg false "" false true m name body p).2]
+
+/-- **modified_op_asyncio_must_time_out**: with a positive keyword `k` the asyncio operation on a device that does not
+    answer before `k` raises ScrapliTimeout(mapped message) exactly at `s + k` — `k`, not the driver-level value. -/
+theorem modified_op_asyncio_must_time_out (cfg : Cfg) (name : String) (body : Prog) (p : Proc) (drv k : Nat) (hk : k ≠ 0)
+    (hu : body.unarmed = true) (hl : ∀ d o, body.natural = (some d, o) → k ≤ d) :
+    let r := (modifiedOp modAsync cfg .asyncio name body p drv (some k)).2
+    r.fin = some (p.now + k) ∧ r.out = .timeout (message name) ∧ r.closed = (if cfg.noTerminate then p.closed else true) := by
+  rw [modified_op_limit modAsync (Or.inr rfl)]
+  simp only [limitInForce, run, asyncio_must_time_out cfg k name body p.now p.closed hk hu hl]
+  refine ⟨?_, ?_, ?_⟩ <;> first | trivial | rfl
+
+/-- … and the signal mechanism likewise (no alarm pending before) -/
+theorem modified_op_signal_must_time_out (cfg : Cfg) (name : String) (body : Prog) (p : Proc) (drv k : Nat) (hk : k ≠ 0)
+    (hu : body.unarmed = true) (hp : p.timer = none) (hl : ∀ d o, body.natural = (some d, o) → k ≤ d) :
+    let r := (modifiedOp modSync cfg .signal name body p drv (some k)).2
+    r.fin = some (p.now + k) ∧ r.out = .timeout (message name) ∧ r.closed = (if cfg.noTerminate then p.closed else true) := by
+  rw [modified_op_limit modSync (Or.inl rfl)]
+  have h := signal_must_time_out cfg k name body p hk hu hp hl
+  simp only [wrapSignal] at h
+  simp only [limitInForce, run, runS_call_ret, h]
+  refine ⟨?_, ?_, ?_⟩ <;> first | trivial | rfl
+
+example : (modifiedOp modAsync {} .asyncio "send_input" (.work 3 .ret) {} 2 (some 0)).2.out = .ret ∧
+    (modifiedOp modAsync {} .asyncio "send_input" (.work 3 .ret) {} 2 none).2.out = .timeout (message "send_input") ∧
+    (modifiedOp modSync {} .signal "send_input" .hang {} 0 (some 5)).2.fin = some 5 := by decide
+
+/-- the operations that carry the modifier: the same three on both stacks (everything else hands the keyword down) -/
+theorem modifier_sites_pinned :
+    modifiedSync.map (·.2) = ["_send_command", "send_and_read", "send_interactive"] ∧
+    modifiedAsync.map (·.2) = modifiedSync.map (·.2) := by decide
 
 end Scrapli.Timeout
